@@ -193,7 +193,7 @@ def write_evidence(prop, tier, seed, level, merged, n_violations, wall):
         for k in ("merges", "schedules", "max_path_len", "distinct_observations", "spec_comparisons"):
             if k in c:
                 cov[k] = int(c[k])
-    for k in ("bounds", "known_findings_reported", "ledger_levels_compared"):
+    for k in ("bounds", "known_findings_reported", "ledger_levels_compared", "shared_mutable_locations"):
         if k in merged:
             cov[k] = merged[k]
     if merged["notes"]:
